@@ -108,10 +108,20 @@ def run(ctx):
         w = rng.choice([None, 1, 2, rng.randint(1, max(r, c) + 1)])
         psi = rng.choice([None, None, rng.randint(0, min(r, c) - 1)])
         kw = dict(window=w, psi=psi, inner_dist=inner)
-        for eng, f in (("py", dtw.distance), ("c", dtw.distance_fast)):
+        # only_ub must return the Euclidean distance whatever other options are present
+        ubkw = dict(kw)
+        if rng.random() < 0.5:
+            ubkw["use_pruning"] = True
+        if rng.random() < 0.5:
+            ubkw["max_dist"] = rng.choice([0.1, 1.0, 3.0, 50.0])
+        if rng.random() < 0.3:
+            ubkw["penalty"] = rng.choice([0.5, 2.0])
+        if rng.random() < 0.2:
+            ubkw["max_step"] = rng.choice([1.0, 5.0])
+        for eng, f in (("py", dtw.distance), ("c", dtw.distance_fast), ("py->c", lambda a, b, **k: dtw.distance(a, b, use_c=True, **k))):
             try:
                 d = float(f(s1, s2, use_ndim=bool(nd), **kw))
-                ub = float(f(s1, s2, use_ndim=bool(nd), only_ub=True, **kw))
+                ub = float(f(s1, s2, use_ndim=bool(nd), only_ub=True, **ubkw))
             except Exception as e:
                 ctx.violation("exception", fn="distance[%s]" % eng, error=repr(e)[:300], s1=s1.tolist(), s2=s2.tolist(),
                               settings=dict(dtwmon.settings_key(kw)), ndim=nd)
@@ -123,7 +133,7 @@ def run(ctx):
                               settings=dict(dtwmon.settings_key(kw)), ndim=nd)
             if not oracle.close(ub, ref):
                 ctx.violation("only_ub-is-not-the-euclidean-distance", engine=eng, only_ub=ub, ed=ref, s1=s1.tolist(),
-                              s2=s2.tolist(), settings=dict(dtwmon.settings_key(kw)), ndim=nd)
+                              s2=s2.tolist(), settings=dict(dtwmon.settings_key(ubkw)), ndim=nd)
         # LB_Keogh
         if not nd:
             wl = rng.choice([None, 1, 2, 3, rng.randint(1, max(r, c) + 1)])
